@@ -2616,8 +2616,9 @@ class FileSet:
 
                 # The value of the placeholder might contain a { or } as regex.
                 # We have to escape them because we use the formatting function
-                # later.
-                v = v.replace("{", "{{").replace("}", "}}")
+                # later. The regex is wrapped in a non-capturing group so that
+                # an alternation (e.g. from a list of values) stays local.
+                v = "(?:" + v.replace("{", "{{").replace("}", "}}") + ")"
 
                 changed_part = path[split_index:].replace("{" + p + "}", v)
                 path = path[:split_index] + changed_part
